@@ -4,6 +4,7 @@ import subprocess
 import shutil
 
 from .. import common, tlc
+from ..objects import warmup
 
 
 def tlaps(ctx):
@@ -49,6 +50,14 @@ def run(ctx):
             with open(scratch, "w") as f:
                 f.write(">query\n" + seq + "\n")
             out = common.call(lambda: lc.SP(sequenceFile=scratch).get_phasePlotRegion())
+        elif ctx.evaluations % 60 == 5:
+            # an object that has already answered other questions (profiles, patterning, phosphosites, plots, backend moves: the
+            # warm-up scenarios take turns): the region is still the one its residues imply
+            def asked_before():
+                o_ = lc.SP(text)
+                warmup(o_, ctx.rng, n=2)
+                return o_.get_phasePlotRegion()
+            out = common.call(asked_before, limit=300)
         else:
             out = common.call(lambda: lc.SP(text).get_phasePlotRegion())
         ctx.evaluations += 1
